@@ -162,6 +162,21 @@ pub fn read(ctx: &Ctx, op: &Op) -> (String, i64, Value) {
         let (outcome, api) = crate::load::load_event(ctx, &op.a);
         return (outcome, 0, api);
     }
+    if op.ev == "ConcFree" {
+        let a = &op.a;
+        let r = catch_unwind(AssertUnwindSafe(|| {
+            let dir = std::path::PathBuf::from(format!("/verif/work/concfree_{}", std::process::id()));
+            let _ = std::fs::remove_dir_all(&dir);
+            std::fs::create_dir_all(&dir).expect("harness: conc dir");
+            let out = crate::sched::run_free(&a["shape"], a["ops"].as_array().unwrap(), a["big"].as_bool().unwrap_or(false), &dir);
+            let _ = std::fs::remove_dir_all(&dir);
+            out
+        }));
+        return match r {
+            Ok(v) => ("ok".into(), 0, v),
+            Err(_) => ("panic".into(), 0, json!({"has": true, "threads": [], "files": [], "leftovers": []})),
+        };
+    }
     if op.ev == "ConcRun" {
         let a = &op.a;
         let r = catch_unwind(AssertUnwindSafe(|| {
@@ -174,7 +189,7 @@ pub fn read(ctx: &Ctx, op: &Op) -> (String, i64, Value) {
         }));
         return match r {
             Ok(v) => ("ok".into(), 0, v),
-            Err(_) => ("panic".into(), 0, json!({"has": true, "threads": []})),
+            Err(_) => ("panic".into(), 0, json!({"has": true, "threads": [], "files": [], "leftovers": []})),
         };
     }
     if op.ev == "Query" {
@@ -449,4 +464,4 @@ pub fn read(ctx: &Ctx, op: &Op) -> (String, i64, Value) {
 
 pub const READ_EVENTS: &[&str] =
     &["Lookup", "TextSel", "AnnTextOf", "OffsetReport", "Utf8Byte", "ByteToChar", "TextOp", "TestRelation", "RelatedText",
-      "TestRelationRow", "RelatedRow", "Validate", "WebAnno", "Parse", "Query", "ConcRun", "Load", "FindData"];
+      "TestRelationRow", "RelatedRow", "Validate", "WebAnno", "Parse", "Query", "ConcRun", "ConcFree", "Load", "FindData"];
